@@ -1,8 +1,10 @@
 import UrcuVerif.Lfht.Conc.Owner
+import UrcuVerif.Lfht.Conc.InvDAll
+import UrcuVerif.Lfht.Conc.InvSAll
 import UrcuVerif.Lfht.Conc.Run
 /-!
 # C07 — hash table: a removed node has one owner; unreachable after a grace period
-(statements and final theorems; helper lemmas in `Lfht/Conc/Inv*.lean`, `Lfht/Conc/Owner.lean`)
+(statements and final theorems; helper lemmas in `Lfht/Conc/Inv*.lean`, `Lfht/Conc/Owner.lean`, `Lfht/Conc/NoCrash.lean`)
 
 Model: `Lfht/Conc/*.lean` — one step per load of a `next` word / of `ht->size` and per read-modify-write of
 `src/rculfhash.c` (`_cds_lfht_add` in all modes, `_cds_lfht_replace`, `_cds_lfht_del`, `_cds_lfht_gc_bucket`,
@@ -11,11 +13,16 @@ threads, every interleaving, threads suspended anywhere**.  `Current c` = the co
 (`REMOVAL_OWNER` taken with `uatomic_xchg`); the variant "load + `uatomic_or`" is `ownerByOr = true`
 and is shown to give two owners in `Neg/C07.lean`.
 
-Proved here for ALL reachable states (the *floor* of DESIGN §4 C07):
+Proved here for ALL reachable states (`C07_full_holds`):
 * `single_owner` — flag automaton of one `next` word (∅ → R → R|O, or ∅ → R|O by the replace CAS);
-* `removed_frozen`, `bucket_never_removed_while_published`.
-`C07_full` additionally asks for `del_returns_unlinked` and `reclaim_safe`; see the end of the file for
-what is proved of them.
+* `removed_frozen`, `bucket_never_removed_while_published`;
+* `del_returns_unlinked` — postcondition of `_cds_lfht_gc_bucket` (layer D, `Lfht/Conc/InvD*.lean`);
+* `reclaim_safe` — the model reclaims a node (`reclaim p`) only after its owner's return plus a grace period and
+  frees a bucket-table level (`tblFree`) only after the shrink's grace period, exactly the obligations
+  `call_rcu`/`synchronize_rcu` put on the caller and on `cds_lfht_resize`; every dereference of a `next` word checks
+  that its node is neither NULL, nor never published, nor freed (`okp`, else the step outputs `crash` and sets `uaf`).
+  Theorem: no reachable state has `uaf`, and no step from a reachable state crashes (layer S, `Lfht/Conc/InvS*.lean`:
+  every pointer a thread holds inside its read-side section is linked or was unlinked after the section began).
 -/
 namespace UrcuVerif.Lfht.Conc
 open UrcuVerif
@@ -53,7 +60,8 @@ def BucketNeverRemoved : Prop :=
   ∀ c s, Current c → Reach c s → ∀ i, i < s.size →
     s.tbl i ≠ 0 ∧ s.isB (s.tbl i) = true ∧ s.hsh (s.tbl i) = i ∧ s.life (s.tbl i) = .linked ∧ (s.nxt (s.tbl i)).rem = false
 
-/-- **del_returns_unlinked** (target): when the winner's call returns, the node is no longer linked -/
+/-- **del_returns_unlinked**: when the winner's call returns, the node is no longer linked (postcondition of
+`_cds_lfht_gc_bucket`, `Lfht/Conc/InvD*.lean`) -/
 def DelReturnsUnlinked : Prop :=
   ∀ c s s' t l o p, Current c → Reach c s → step c s t l = some (s', o) → succFor s t l o = some p → p ∉ s'.L
 
@@ -65,8 +73,11 @@ def ReclaimSafe : Prop := ∀ c s, Current c → Reach c s → s.uaf = false
 def C07_full : Prop :=
   SingleOwnerState ∧ SingleOwnerRun ∧ RemovedFrozen ∧ BucketNeverRemoved ∧ DelReturnsUnlinked ∧ ReclaimSafe
 
-/-- the conjuncts proved so far -/
-def C07_partial : Prop := SingleOwnerState ∧ SingleOwnerRun ∧ RemovedFrozen ∧ BucketNeverRemoved
+/-- the same obligation per step: no step enabled in a reachable state dereferences reclaimed memory -/
+def NoStepCrashes : Prop := ∀ c s s' t l o, Current c → Reach c s → step c s t l = some (s', o) → o ≠ .crash
+
+/-- the conjuncts of the floor (kept for the record; all of `C07_full` is proved below) -/
+def C07_partial : Prop := SingleOwnerState ∧ SingleOwnerRun ∧ RemovedFrozen ∧ BucketNeverRemoved ∧ DelReturnsUnlinked
 
 theorem single_owner_state : SingleOwnerState := by
   intro c s hc r p
@@ -130,8 +141,19 @@ theorem bucket_never_removed_while_published : BucketNeverRemoved := by
   have l := f.2.2.1 i hi
   exact ⟨h0, m.1, m.2.1, l.1, l.2⟩
 
+theorem del_returns_unlinked : DelReturnsUnlinked := by
+  intro c s s' t l o p hc r st hs; exact (del_returns_unlinked_step hc r st hs).2
+
 theorem C07_partial_holds : C07_partial :=
-  ⟨single_owner_state, single_owner_run, removed_frozen, bucket_never_removed_while_published⟩
+  ⟨single_owner_state, single_owner_run, removed_frozen, bucket_never_removed_while_published, del_returns_unlinked⟩
+
+theorem reclaim_safe : ReclaimSafe := fun _ _ hc r => reclaim_safe_reach hc r
+
+theorem no_step_crashes : NoStepCrashes := fun _ _ _ _ _ _ hc r st => never_crashes_step hc r st
+
+theorem C07_full_holds : C07_full :=
+  ⟨single_owner_state, single_owner_run, removed_frozen, bucket_never_removed_while_published, del_returns_unlinked,
+    reclaim_safe⟩
 
 /-! ## Non-vacuity: two deleters race for the same node, both pass the `REMOVED` test, both complete -/
 
@@ -165,5 +187,38 @@ example : (runOut c2 init (raceDel ++ [(1, .xchgOwn), (0, .xchgOwn)])).map
 /-- the hypotheses of the step theorems are met by this run: it is reachable -/
 example : ∃ s, Reach c2 s ∧ (s.th 0).pc = .dXchg ∧ (s.th 1).pc = .dXchg ∧ (s.nxt 5).rem = true :=
   ⟨(run c2 init raceDel).get (by decide), run_reach .init (Option.some_get _).symm, by decide, by decide, by decide⟩
+
+/-! ## Non-vacuity of `reclaim_safe`: nodes and bucket tables do get freed, and the guards are what keeps it safe -/
+
+/-- T0 adds node 5, looks it up, deletes it (wins) and leaves its read-side section; then 5 is reclaimed -/
+def delReclaim : List (Nat × Label) :=
+  [(0, .rlock), (0, .callAdd .plain 5 3 30), (0, .ldSize), (0, .ldHeadA), (0, .casIns),
+   (0, .callLookup 3 30), (0, .ldSize), (0, .ldHeadL), (0, .ldWalk), (0, .ldAssertW),
+   (0, .callDel), (0, .ldSize), (0, .ldDel), (0, .orRem),
+   (0, .ldHeadG), (0, .ldNextG), (0, .casGc), (0, .ldHeadG), (0, .ldAssertD), (0, .ldDel2), (0, .xchgOwn),
+   (0, .runlock), (1, .reclaim 5)]
+
+/-- the node is freed, nothing went wrong; a dereference of 5 from here on would be caught (`okp = false`) -/
+example : (runOut c2 init delReclaim).map (fun x => (x.1.freed 5, x.1.uaf, okp x.1 5, x.1.L, x.2.drop 20)) =
+    some (true, false, false, [1], [.ret 0, .unit, .unit]) := by decide
+
+/-- while the deleter's own read-side section (which began before the unlink) is still open, `reclaim 5` is not enabled -/
+example : run c2 init (delReclaim.take 21 ++ [(1, .reclaim 5)]) = none := by decide
+
+/-- one thread grows the table to 2 buckets (bucket node 10) and shrinks it again: bucket 10 is flagged, unlinked,
+and after the second grace period its table level is freed -/
+def growShrink : List (Nat × Label) :=
+  [(1, .rzLock), (1, .tblAlloc 10), (1, .partBegin), (1, .ldHeadA), (1, .casIns), (1, .partEnd), (1, .stSizeGrow),
+   (1, .stSizeShrink), (1, .gpStart), (1, .gpEnd), (1, .partBegin), (1, .orBkt), (1, .ldHeadG), (1, .ldNextG), (1, .casGc),
+   (1, .ldHeadG), (1, .partEnd), (1, .gpStart), (1, .gpEnd), (1, .tblFree), (1, .rzUnlock)]
+
+example : (run c2 init (growShrink.take 7)).map (fun s => (s.size, s.L, s.tbl 1)) = some (2, [1, 10], 10) := by decide
+
+example : (run c2 init growShrink).map (fun s => ((s.th 1).pc, s.size, s.L, s.tbl 1)) = some (.idle, 1, [1], 0) := by decide
+
+example : (run c2 init growShrink).map (fun s => (s.freed 10, s.uaf, okp s 10)) = some (true, false, false) := by decide
+
+/-- a reader that entered before the shrink keeps the grace period open: `gpEnd` is not enabled -/
+example : run c2 init ((0, .rlock) :: growShrink.take 9 ++ [(1, .gpEnd)]) = none := by decide
 
 end UrcuVerif.Lfht.Conc
